@@ -157,3 +157,25 @@ def run_kani_multi(crate_dir, harnesses, jobs=4, timeout=1800, solver=None, extr
             res[h] = r
         res[h].cmd = " ".join(cmd)
     return res, wall, out
+
+
+def playback(crate_dir, harness, timeout=900, extra=None):
+    """Kani's counterexample for a failed harness, replayed natively on the generated crate (which holds the real function
+    text): `--concrete-playback=inplace` writes the concrete values as unit tests into src/lib.rs, `cargo kani playback`
+    runs them. Returns the lines describing the failing replays (empty if none failed or the tooling did not cooperate)."""
+    env = dict(os.environ)
+    env["CARGO_NET_OFFLINE"] = "true"
+    env["CARGO_TARGET_DIR"] = os.path.join(vxlib.VERIF, ".cache", "kani-target", os.path.basename(crate_dir))
+    gen = ["cargo", "kani", "--harness", harness, "-Z", "concrete-playback", "--concrete-playback=inplace"] + list(extra or [])
+    try:
+        subprocess.run(gen, cwd=crate_dir, capture_output=True, text=True, timeout=timeout, env=env)
+        p = subprocess.run(["cargo", "kani", "playback", "-Z", "concrete-playback"], cwd=crate_dir, capture_output=True, text=True,
+                           timeout=timeout, env=env)
+    except subprocess.TimeoutExpired:
+        return []
+    out = p.stdout + "\n" + p.stderr
+    lines = []
+    for m in re.finditer(r"---- (\S*kani_concrete_playback_\S+) stdout ----\n(.*?)(?=\n----|\nfailures:)", out, re.S):
+        msg = " ".join(x.strip() for x in m.group(2).strip().split("\n")[:4])
+        lines.append(f"REPRODUCED kani-playback {m.group(1)} (generated test in {crate_dir}/src/lib.rs, concrete input = Kani's counterexample): {msg[:400]}")
+    return lines
